@@ -54,6 +54,12 @@ struct Ent {
         if (kind == "tag") return tag.createdAt(); if (kind == "mtag") return mtag.createdAt(); if (kind == "group") return group.createdAt();
         if (kind == "feature") return feature.createdAt(); return 0;
     }
+    time_t updated() const {
+        if (kind == "block") return block.updatedAt(); if (kind == "section") return section.updatedAt(); if (kind == "prop") return prop.updatedAt();
+        if (kind == "source") return source.updatedAt(); if (kind == "array") return array.updatedAt(); if (kind == "frame") return frame.updatedAt();
+        if (kind == "tag") return tag.updatedAt(); if (kind == "mtag") return mtag.updatedAt(); if (kind == "group") return group.updatedAt();
+        if (kind == "feature") return feature.updatedAt(); return 0;
+    }
     bool valid() const {
         if (kind == "block") return block.isValidEntity(); if (kind == "section") return section.isValidEntity(); if (kind == "prop") return prop.isValidEntity();
         if (kind == "source") return source.isValidEntity(); if (kind == "array") return array.isValidEntity(); if (kind == "frame") return frame.isValidEntity();
@@ -94,6 +100,7 @@ struct Session {
     std::map<std::string, long> eidOfId;     // UUID -> model eid (bound at creation, survives reopen)
     std::map<long, std::string> idOf;
     std::map<long, long> createdAt;
+    std::map<long, long> updatedAt;          // last seen updated_at per entity: never goes back, never precedes created_at
     json carried = json::array();            // issues observed immediately before a close (what was observable before closing)
     Dict dict;
     std::string path;
@@ -286,6 +293,11 @@ struct Walk {
         long cr = (long) e.created();
         if (it == s.createdAt.end()) s.createdAt[eid] = cr;
         else if (it->second != cr) r["created_changed"] = true;
+        long up = (long) e.updated();
+        auto ut = s.updatedAt.find(eid);
+        if (ut != s.updatedAt.end() && up < ut->second) r["updated_went_back"] = true;
+        if (up < cr) r["updated_before_created"] = true;
+        s.updatedAt[eid] = up;
         json detail;
         long a = readAttr(e, detail);
         r["attr"] = a;
